@@ -179,10 +179,10 @@ func registerResolver() {
 	})
 	register(&PropSpec{
 		ID: "C13", Pkg: "argmapper",
-		Quick: []Shard{sh("HarnessShapes", "statically declared target with an embedded exported type next to the marker: the missing embedded parameter is named by the error", 0, 2),
+		Quick: []Shard{world("HarnessC13", 6, 1, 2, 0, 1, 0, 4), world("HarnessC13", 2, 1, 2, 0, 1, 0, 4), world("HarnessC13", 2, 2, 2, 0, 1, 0, 4), sh("HarnessShapes", "statically declared target with an embedded exported type next to the marker: the missing embedded parameter is named by the error", 0, 2),
 			world("HarnessC13", 1, 1, 2, 0, 0, 0), world("HarnessC13", 3, 2, 1, 0, 1, 0), world("HarnessC13", 0, 1, 1, 11, 9, 0), world("HarnessC13", 2, 1, 1, 11, 3, 1), world("HarnessC13", 1, 2, 1, 11, 1, 0), world("HarnessC13", 5, 2, 1, 2111, 0, 0), world("HarnessC13", 107, 0, 0, 0, 9, 0), world("HarnessC13", 103, 0, 0, 0, 1, 0), world("HarnessC13", 6, 2, 1, 0, 1, 0, 4), world("HarnessC13", 6, 2, 0, 11, 1, 0, 4), world("HarnessC13", 1, 2, 1, 0, 3, 0, 8), world("HarnessC13", 0, 2, 1, 11, 9, 0, 16), world("HarnessC13", 0, 2, 1, 10, 9, 0), world("HarnessC13", 1, 2, 1, 1110, 1, 0),
 		},
-		Thorough: []Shard{sh("HarnessShapes", "statically declared target with an embedded exported type next to the marker: the missing embedded parameter is named by the error", 0, 2),
+		Thorough: []Shard{world("HarnessC13", 6, 1, 2, 0, 1, 0, 4), world("HarnessC13", 2, 1, 2, 0, 1, 0, 4), world("HarnessC13", 2, 2, 2, 0, 1, 0, 4), sh("HarnessShapes", "statically declared target with an embedded exported type next to the marker: the missing embedded parameter is named by the error", 0, 2),
 			world("HarnessC13", 1, 1, 2, 0, 0, 0), world("HarnessC13", 3, 2, 1, 0, 1, 0), world("HarnessC13", 0, 1, 1, 11, 9, 0), world("HarnessC13", 2, 1, 1, 11, 3, 1), world("HarnessC13", 1, 2, 1, 11, 1, 0), world("HarnessC13", 5, 2, 1, 2111, 0, 0), world("HarnessC13", 3, 2, 2, 11, 1, 0), world("HarnessC13", 0, 2, 1, 1111, 1, 0), world("HarnessC13", 6, 2, 1, 12, 1, 0, 4), world("HarnessC13", 7, 2, 1, 11, 1, 0), world("HarnessC13", 1, 2, 1, 91, 1, 0),
 		},
 		Covers:   []string{"C13.shapes-checked", "C13.hopeless-world", "C13.error-checked"},
